@@ -32,7 +32,7 @@ POLICIES = ["EpsilonGreedy", "UCB1", "Softmax", "Popularity", "ThompsonSampling"
 
 @st.composite
 def plan_st(draw, tier):
-    cfg = draw(gen.config_st(lps=POLICIES, nps=[None], arm_kinds=("int", "str", "float", "mix"), min_arms=1, max_arms=5))
+    cfg = draw(gen.config_st(many_arms_ok=True, lps=POLICIES, nps=[None], arm_kinds=("int", "str", "float", "mix"), min_arms=1, max_arms=5))
     h = gen.History(draw, cfg, max_rows=12)
     n = draw(st.integers(1, 14 if tier == "quick" else 25))
     for _ in range(draw(st.sampled_from([0, 0, 0, 1, 2]))):      # arm changes before the first training call
